@@ -319,26 +319,7 @@ def check(run):
         crules.phase_rules(run, "C02-model", ast)
     # whether a policy HAS an error handler is asked of the final policy class: a handler mixed in by inheritance (the way the
     # library's own benchmarks add facets) must be seen, or the handlers of its methods abort without reporting anything
-    from .. import e3
-    fu = e3.Unit("c02_facets", """
-#include <yorel/yomm2/core.hpp>
-using namespace yorel::yomm2;
-namespace c02f {
-struct inh_throw : policy::release::rebind<inh_throw>::remove<policy::error_handler>, policy::throw_error {};
-struct inh_vec : policy::release::rebind<inh_vec>::remove<policy::error_handler>, policy::vectored_error<inh_vec> {};
-struct inh_checks : policy::release::rebind<inh_checks>, policy::runtime_checks {};
-struct none : policy::release::rebind<none>::remove<policy::error_handler> {};
-}
-using namespace c02f;
-""")
-    fu.add("has_facet|inherited|throw_error", "a policy that inherits policy::throw_error has the error_handler facet", "static_assert(inh_throw::has_facet<policy::error_handler>);")
-    fu.add("has_facet|inherited|vectored_error", "a policy that inherits vectored_error<P> has the error_handler facet", "static_assert(inh_vec::has_facet<policy::error_handler>);")
-    fu.add("has_facet|inherited|runtime_checks", "a policy that inherits runtime_checks has that facet", "static_assert(inh_checks::has_facet<policy::runtime_checks>);")
-    fu.add("has_facet|removed", "a policy whose error handler was removed (and none added) has no error_handler facet", "static_assert(!none::has_facet<policy::error_handler>);")
-    run.rule("C02-facets", "has_facet is asked of the final policy class: facets added by inheritance are seen, removed ones are not", floor=4)
-    for ob, ok, msg in e3.run_unit(run, "C02-facets", fu):
-        if not ok:
-            run.violation("C02-facets", ob["key"], "%s: %s" % (ob["desc"], msg), "include/yorel/yomm2/policies/core.hpp")
+    crules.facet_rules(run, "C02-facets")
     # pre-generated tables: the decoder rebuilds each method's cells; its error cells must be the ones update numbers
     from . import c13
     from .. import astq, witness as _w
